@@ -54,7 +54,7 @@ func wsAfterFramingViolation(s *Stream, closedFirst bool) {
 }
 
 func VerifC15_Session() {
-	F := vf.Bound("frames", 2, 3)
+	F := vf.Bound("frames", 2, 2)
 	sc := wsConformingScript(F, "small")
 	max := 300
 	// one mutation at a symbolic position
@@ -119,7 +119,7 @@ func VerifC15_Session() {
 		fr.payload = vf.Bytes("over-max", max+1)
 	}
 	sc.encode()
-	t := &sonic.VerifTransport{In: sc.wire, Total: len(sc.wire), Concrete: true, MaxWSegs: 1, MaxSegs: vf.Bound("segments", 2, 3), SplitLimit: vf.Bound("split-limit", 2, 4)}
+	t := &sonic.VerifTransport{In: sc.wire, Total: len(sc.wire), Concrete: true, MaxWSegs: 1, MaxSegs: vf.Bound("segments", 2, 2), SplitLimit: vf.Bound("split-limit", 2, 3)}
 	s := wsNewStream(t, max)
 	vf.Unwind(400)
 	// the violation may also arrive after the client has started the closing handshake itself and
